@@ -426,6 +426,64 @@ func VerifC16Recover() {
 	vReach("end")
 }
 
+// vC16Bare: every verb with a built-in handler, without any parameter, from no
+// source, the client itself, another user and the server - the lines on which a
+// built-in handler is most likely to panic.
+func vC16Bare() []string {
+	var out []string
+	for _, verb := range vC02Verbs() {
+		for _, src := range []string{"", ":me!u@h ", ":n!u@h ", ":srv "} {
+			out = append(out, src+verb)
+		}
+	}
+	return out
+}
+
+// VerifC16Builtin: a built-in handler that panics (on a parameterless line for
+// its verb) is recovered, leaves nothing behind that stops later events - a
+// well-formed line for every built-in verb and a user event are still delivered -
+// and the panic reaches the configured recovery function.
+func VerifC16Builtin() {
+	vSetOpt("deadlockIsViolation", 1)
+	track := vLen("track", 0, 1) == 1
+	conn := vNewConn(track)
+	if track {
+		conn.st.NewChannel("#c")
+		conn.st.Associate("#c", "me")
+		conn.st.NewNick("n")
+		conn.st.Associate("#c", "n")
+	}
+	recovered := 0
+	conn.cfg.Recover = func(c *Conn, l *Line) {
+		if r := recover(); r != nil {
+			recovered++
+		}
+	}
+	bare := vC16Bare()
+	raw := bare[vLen("bare", 0, len(bare)-1)]
+	// no parameter at all, or one arbitrary ASCII byte as the only (middle or trailing) parameter
+	if rest := vStr("rest", vLen("restlen", 0, 1)); len(rest) > 0 {
+		vASCII(rest)
+		vAssume(rest[0] != '\r' && rest[0] != '\n')
+		raw += " " + rest
+	}
+	after := 0
+	conn.HandleFunc("next", func(c *Conn, l *Line) { after++ })
+	l := ParseLine(raw)
+	vAssume(l != nil)
+	escaped := vPanics(func() { conn.dispatch(l); vRunPending() })
+	vAssert(!escaped, "builtin-handler-panic-recovered")
+	for _, next := range vC02WellFormed {
+		conn.dispatch(ParseLine(next))
+		vRunPending()
+	}
+	_ = vDrain(conn)
+	conn.dispatch(&Line{Cmd: "NEXT"})
+	vRunPending()
+	vAssert(after == 1, "later-handlers-still-run")
+	vReach("end")
+}
+
 // VerifC16Background: a background handler that never returns does not delay
 // foreground delivery, however many events pile up behind it.
 func VerifC16Background() {
@@ -433,17 +491,24 @@ func VerifC16Background() {
 	never := make(chan struct{})
 	fg := 0
 	conn.HandleBG("ev", HandlerFunc(func(*Conn, *Line) { <-never }))
-	conn.HandleFunc("ev", func(*Conn, *Line) { fg++ })
+	// the stuck event itself has 0..2 foreground handlers; a later, different event has one
+	nfg := vLen("nfg", 0, 2)
+	for i := 0; i < nfg; i++ {
+		conn.HandleFunc("ev", func(*Conn, *Line) { fg++ })
+	}
+	later := 0
+	conn.HandleFunc("later", func(*Conn, *Line) { later++ })
 	n := vParam("EVENTS", 40)
 	done := false
 	go func() {
 		for i := 0; i < n; i++ {
 			conn.dispatch(&Line{Cmd: "EV"})
+			conn.dispatch(&Line{Cmd: "LATER"})
 		}
 		done = true
 	}()
 	vRunPending()
-	vAssert(done && fg == n, "foreground-not-delayed-by-stuck-background")
+	vAssert(done && fg == n*nfg && later == n, "foreground-not-delayed-by-stuck-background")
 	close(never)
 	vRunPending()
 	vReach("end")
